@@ -466,6 +466,10 @@ def gen_simple(r, rooms_mode=1, big=False):
         courses[j]["name"] = courses[i]["name"]
     elif nm < 0.2 and np_ >= 2:
         i, j = r.sample(range(np_), 2)
+        if r.random() < 0.5:
+            # twins: neighbours in the list with the same name and the same choices — still two people
+            i = r.randrange(np_ - 1); j = i + 1
+            parts[j]["choices"] = copy.deepcopy(parts[i]["choices"])
         parts[j]["name"] = parts[i]["name"]
     elif nm < 0.3:
         cands = [(p, ch["course"]) for p in parts for ch in p["choices"]]
